@@ -45,6 +45,8 @@ def gen_case(rng):
         else:
             ops.append(["stall"])
     call["consume"] = {"ops": ops, "final": rng.choice(FINALS)}
+    if call["consume"]["final"] == "drop_other" and rng.random() < 0.6:
+        call["consume"]["at_once"] = True       # the object is reused as soon as the foreign thread's `del` has returned
     m = rng.randint(0, 7)
     k = rng.randint(0, 4)
     case["calls"] = [call, {"n": m, "dur": [rng.choice([0.0, 0.01]) for _ in range(m)]},
@@ -171,6 +173,7 @@ def consumer(w, s, p, c, gen, rec):
             s.yp("drop")
             box.pop()               # last reference once main has dropped its own
             done.append(1)
+            s.wake(s.main)
         rec["drop_other"] = (box, done, dropper)
         rec["defer_over"] = True
         rec["outcome"] = {"kind": "dropped_other", "t": s.now}
@@ -232,8 +235,15 @@ def run_case(case):
                 done, t = hold["other"]
                 # joblib hands the abort of a generator dropped by a foreign thread to a helper
                 # thread: the run counts as over once the drop has returned and that helper is done
-                while not done or any(x.role.startswith("GeneratorExitThread") and s.alive(x) for x in s.threads):
-                    s.sleep(0.01)
+                at_once = w.case["calls"][0]["consume"].get("at_once")
+                while not done or (not at_once and any(x.role.startswith("GeneratorExitThread") and s.alive(x) for x in s.threads)):
+                    if at_once:
+                        s.block()               # woken by the dropping thread: no virtual time passes, joblib's helper
+                    else:                       # thread is not given a head start
+                        s.sleep(0.01)
+                if at_once:
+                    w.probes["reuse_while_the_detached_abort_may_still_run"] += 1
+                    hold["rec"]["detached_abort_pending"] = True
                 hold["rec"].pop("drop_other", None)
                 pc.mark_over(w, hold["rec"])
         w.call_hooks = [hook]
